@@ -103,7 +103,7 @@ def process(tier, rng, cicada):
         lg = os.path.join(d, "stage.log")
         subprocess.run([cicada, "-c", line], cwd=d, env=sb.env({"STAGE_LOG": lg, "ARGV_LOG": os.path.join(d, "a.log")}),
                        stdin=subprocess.DEVNULL, stdout=subprocess.PIPE, stderr=subprocess.PIPE, timeout=20)
-        ran = open(lg).read().split() if os.path.exists(lg) else []
+        ran = [x.split(":")[0] for x in open(lg).read().split()] if os.path.exists(lg) else []
         once.append((line, ran))
     sb.cleanup()
     global ONCE
